@@ -140,3 +140,76 @@ End EvalN.
 
 (* the record the correspondence's function returns: output i (from 1) = digits of the arguments + 10000 i *)
 Definition fouts (n : nat) (l : list pval) : list pval := map (fun i => fval (fcode l + 10000 * Z.of_nat i)) (seq 1 n).
+
+(* ------------------------------------------------------------------ partially keyed inputs
+   (join docstring: "joins with partial columns in some tables").  An input may carry only some of the `on`
+   columns: mask says which (in `on` order); absent positions of its keys hold CNone.  The model follows join
+   step by step: the inputs without default are multiplied (natural join on the shared key columns) in input
+   order; the defaulted ones are folded with _join_dictable_with_defaults (matched rows, plus the rows of
+   either side that found no partner carrying the other side's defaults); concatenation fills a key column
+   a row's table did not carry with None.  Generated only with masks that pairwise share a key column. *)
+Definition prow := (list cell * list (option pval))%type.      (* key cells per `on` column; per input: its value once joined *)
+Definition ptab := (list bool * list prow)%type.                (* which `on` columns the table carries; rows *)
+
+Fixpoint kmatch (m1 m2 : list bool) (a b : list cell) : bool :=
+  match m1, m2, a, b with
+  | b1 :: m1', b2 :: m2', x :: a', y :: b' => (if b1 && b2 then ccmp x y =? 0 else true) && kmatch m1' m2' a' b'
+  | _, _, _, _ => true
+  end.
+Fixpoint kmerge (m1 : list bool) (a b : list cell) : list cell :=
+  match m1, a, b with b1 :: m', x :: a', y :: b' => (if b1 then x else y) :: kmerge m' a' b' | _, _, _ => [] end.
+Fixpoint vmerge (a b : list (option pval)) : list (option pval) :=
+  match a, b with x :: a', y :: b' => (match x with Some _ => x | None => y end) :: vmerge a' b' | _, _ => [] end.
+Fixpoint mor (a b : list bool) : list bool := match a, b with x :: a', y :: b' => (x || y) :: mor a' b' | _, _ => [] end.
+
+Definition pmul (d1 d2 : ptab) : ptab :=
+  (mor (fst d1) (fst d2),
+   flat_map (fun r1 => flat_map (fun r2 => if kmatch (fst d1) (fst d2) (fst r1) (fst r2)
+                                           then [(kmerge (fst d1) (fst r1) (fst r2), vmerge (snd r1) (snd r2))] else []) (snd d2)) (snd d1)).
+Definition panti (d1 d2 : ptab) : list prow :=
+  filter (fun r1 => negb (existsb (fun r2 => kmatch (fst d1) (fst d2) (fst r1) (fst r2)) (snd d2))) (snd d1).
+Fixpoint setnth {A} (i : nat) (v : A) (l : list A) : list A :=
+  match l, i with [], _ => [] | _ :: l', O => v :: l' | x :: l', S j => x :: setnth j v l' end.
+Definition setdefs (defs : list (nat * pval)) (r : prow) : prow :=
+  (fst r, fold_left (fun vals d => setnth (fst d) (Some (snd d)) vals) defs (snd r)).
+Definition ptd := (option ptab * list (nat * pval))%type.       (* (table, defaults collected so far) *)
+Definition pouter (t1 t2 : ptd) : ptd :=
+  match fst t1, fst t2 with
+  | None, _ => (fst t2, snd t1 ++ snd t2)
+  | _, None => (fst t1, snd t1 ++ snd t2)
+  | Some d1, Some d2 =>
+      let d := pmul d1 d2 in
+      let add1 := match snd t1 with [] => [] | _ => map (setdefs (snd t1)) (panti d2 d1) end in
+      let add2 := match snd t2 with [] => [] | _ => map (setdefs (snd t2)) (panti d1 d2) end in
+      (Some (fst d, snd d ++ add1 ++ add2), snd t1 ++ snd t2)
+  end.
+
+(* input i of n as a table: its rows hold the value at position i *)
+Definition parg := (list bool * arg)%type.
+Definition onehot (n i : nat) (v : pval) : list (option pval) := map (fun j => if Nat.eqb j i then Some v else None) (seq 0 n).
+Definition as_ptab (n i : nat) (p : parg) : option ptab :=
+  match a_in (snd p) with Table rows => Some (fst p, map (fun r => (fst r, onehot n i (snd r))) rows) | Scalar _ => None end.
+Definition pjoinP (ps : list parg) : list prow :=
+  let n := List.length ps in
+  let ips := combine (seq 0 n) ps in
+  let nod := flat_map (fun ip => match as_ptab n (fst ip) (snd ip), a_def (snd (snd ip)) with Some t, None => [t] | _, _ => [] end) ips in
+  let wd := flat_map (fun ip => match as_ptab n (fst ip) (snd ip), a_def (snd (snd ip)) with Some t, Some dv => [(Some t, [(fst ip, dv)])] | _, _ => [] end) ips in
+  let tbl1 : option ptab := match nod with [] => None | t :: r => Some (fold_left pmul r t) end in
+  let td2 : ptd := fold_left pouter wd (None, []) in
+  let res := pouter (tbl1, []) td2 in
+  let scal (vals : list (option pval)) := map (fun ipv => match a_in (snd (snd (fst ipv))) with Scalar v => Some v | Table _ => snd ipv end) (combine ips vals) in
+  match fst res with
+  | None => [([], scal (map (fun _ => None) ps))]
+  | Some t =>
+      let rows := snd t in
+      let order := map snd (isort (list cell) tcmp (combine (map fst rows) (seq 0 (List.length rows)))) in   (* res.sort(on): stable, by the full key *)
+      map (fun i => let r := nth i rows ([], []) in (fst r, scal (snd r))) order
+  end.
+
+(* perdictable over such a join, no cached data: every row is computed, once *)
+Definition perdictP (f : list pval -> pval) (ps : list parg) : result * list (key * list pval) :=
+  let rows := map (fun r => (fst r, map (fun o => match o with Some v => v | None => VNone end) (snd r))) (pjoinP ps) in
+  match rows with
+  | [] => (RNone, [])
+  | _ => (RTable (map (fun r => (fst r, f (snd r))) rows), rows)
+  end.
